@@ -6,7 +6,7 @@ PROP = "C18"
 TRUSTED = [
     "Coq 8.16.1 kernel (coqc), vm_compute for case evaluation; no native_compute",
     "hand-written interleaving model props/C18/coq/Model.v of cache/cache.go + cache/cleaner.go: one label = one "
-    "locked region (getOrCreate, save, recover, Cleanup, Release, rotate, markStale, CleanEmptyGenerations, "
+    "locked region (getOrCreate, save, recover, Cleanup incl. maxPayloadSize and the map rebuild, Release, rotate, markStale, CleanEmptyGenerations, "
     "ReleaseBuckets) or one atomic Add (tied to /repo by the correspondence run, not verified code)",
     "Go harness harness/cmd/hC18 (goroutines parked inside their loader callbacks, at verifhook.At in save, and a "
     "NewCache run from the Released() callback of a wrapper bucket; stable points detected through the WaitsTotal "
@@ -28,7 +28,9 @@ RULE = ("event lists on the real cache package, model evaluated in Coq on the sa
         "landing between ReleaseBuckets' unlocked scan and its locked removal), random sequential op lists "
         "(get/get-with-error/panic/new/release/rotate/cleanup/gc), random schedules with creators parked inside "
         "their loaders or at the schedule point after save's unlock while other goroutines look up / wait / clean / "
-        "rotate / release / drop generations, boundary schedules (sizes and limits multiples of 100), and the "
+        "rotate / release / drop generations, boundary schedules (sizes and limits multiples of 100), payload-rebuild "
+        "schedules (200..260 entries, rotation, loaders parked in the fresh generation, a cleaning pass that shrinks "
+        "the map around the recreatePayload threshold, second callers of the parked keys), and the "
         "regression schedules of the four repaired races. non-trivial = at least one lookup and one maintenance call with an "
         "effect (rotation, cleaning pass, generations or buckets removed); distinct by event list")
 
